@@ -156,6 +156,8 @@ class Origins:
     def proj_field(self, ex, p):
         name = p["n"]
         i = p["i"]
+        if ex[0] == "env" or (ex[0] == "deref" and ex[1][0] == "env"):
+            return ("upvar", i, self.upvars.get(i, str(i)))
         if ex[0] == "bin" and ex[1].endswith("WithOverflow"):
             if i == 0:
                 return ("bin", norm_op(ex[1]), ex[2], ex[3])
